@@ -116,6 +116,21 @@ macro_rules! growing_ops {
     };
 }
 
+/// the same operations through the `try_` twins; an error becomes the panic the twin would raise
+macro_rules! growing_ops_try {
+    ($s:expr, $op:expr) => {
+        match $op {
+            Op::Push(c) => { $s.try_push(*c).unwrap_or_else(|_| panic!("try_push failed")); true }
+            Op::PushStr(t) => { $s.try_push_str(t).unwrap_or_else(|_| panic!("try_push_str failed")); true }
+            Op::Insert(i, c) => { $s.try_insert(*i, *c).unwrap_or_else(|_| panic!("try_insert failed")); true }
+            Op::InsertStr(i, t) => { $s.try_insert_str(*i, t).unwrap_or_else(|_| panic!("try_insert_str failed")); true }
+            Op::ReplaceRange(a, b, t) => { $s.try_replace_range(*a..*b, t).unwrap_or_else(|_| panic!("try_replace_range failed")); true }
+            Op::ExtendFromWithin(a, b) => { $s.try_extend_from_within(*a..*b).unwrap_or_else(|_| panic!("try_extend_from_within failed")); true }
+            _ => false,
+        }
+    };
+}
+
 fn supports(kind: &str, op: &Op) -> bool {
     match (kind, op) {
         ("bb", Op::Push(_) | Op::PushStr(_) | Op::Insert(..) | Op::InsertStr(..) | Op::ReplaceRange(..) | Op::ExtendFromWithin(..)) => false,
@@ -149,6 +164,8 @@ fn run_impl(kind: &str, input: &str, op: &Op, ans: &[u8], notes: &mut Vec<String
     let panicked;
     let bytes: Vec<u8>;
     let room = input.len() + op.str_arg().len() + input.len() + 8;
+    // odd cases go through the try_ twins of the growing operations
+    let alt = (ans.len() + input.len()) % 2 == 1;
     match kind {
         "bb" => {
             let mut s: BumpBox<str> = bump.alloc_str(input);
@@ -165,7 +182,7 @@ fn run_impl(kind: &str, input: &str, op: &Op, ans: &[u8], notes: &mut Vec<String
             s.push_str(input);
             let cap = s.capacity();
             let r = catch_unwind(AssertUnwindSafe(|| {
-                if !common_ops!(s, op, orc, chars) && !growing_ops!(s, op) {
+                if !common_ops!(s, op, orc, chars) && !(if alt { growing_ops_try!(s, op) } else { growing_ops!(s, op) }) {
                     if let Op::SplitOff(a, b) = op {
                         let o = s.split_off(*a..*b);
                         if o.capacity() + s.capacity() != cap { notes.push(format!("split_off capacities {}+{} != {}", o.capacity(), s.capacity(), cap)); }
@@ -180,7 +197,7 @@ fn run_impl(kind: &str, input: &str, op: &Op, ans: &[u8], notes: &mut Vec<String
         "bs" => {
             let mut s: BumpString<&Bump> = BumpString::from_str_in(input, &bump);
             let r = catch_unwind(AssertUnwindSafe(|| {
-                if !common_ops!(s, op, orc, chars) && !growing_ops!(s, op) {
+                if !common_ops!(s, op, orc, chars) && !(if alt { growing_ops_try!(s, op) } else { growing_ops!(s, op) }) {
                     if let Op::SplitOff(a, b) = op { off = Some(s.split_off(*a..*b).as_bytes().to_vec()); }
                 }
             }));
@@ -191,7 +208,7 @@ fn run_impl(kind: &str, input: &str, op: &Op, ans: &[u8], notes: &mut Vec<String
         _ => {
             let mut s: MutBumpString<&mut Bump> = MutBumpString::from_str_in(input, &mut bump);
             let r = catch_unwind(AssertUnwindSafe(|| {
-                let _ = common_ops!(s, op, orc, chars) || growing_ops!(s, op);
+                let _ = common_ops!(s, op, orc, chars) || (if alt { growing_ops_try!(s, op) } else { growing_ops!(s, op) });
             }));
             panicked = r.is_err();
             if s.capacity() < s.len() { notes.push("capacity < len".into()); }
@@ -294,6 +311,96 @@ fn conv_case(w: &mut impl std::io::Write, r: &mut Rng, which: u64) {
             for (n, got) in [("into_cstr", &a), ("alloc_cstr_from_str", &b), ("alloc_cstr_fmt", &c), ("MutBumpString::into_cstr", &d), ("alloc_cstr_fmt_mut", &e)] {
                 if got != &want { writeln!(w, "{head} :: {n} is not the text up to the first NUL followed by one NUL: {got:?}").unwrap(); }
             }
+        }
+        6 | 7 => {
+            // conversions between the string types and their raw views; std::string::String in lock-step
+            let s = gen_string(r, 8);
+            let t = gen_string(r, 6);
+            let z = r.below(5) as usize;
+            let head = format!("X strs cv convert in={s:?} arg={t:?} zeros={z}");
+            let mut bad = |what: &str, got: &str, want: &str| { writeln!(w, "{head} :: {what}: {got:?} instead of {want:?}").unwrap(); };
+            let guard_text = "sentinel \u{10FFFF}\u{7FF}";
+            let sentinel = bump.alloc_str(guard_text);
+            let mut want = s.clone();
+            let mut a: BumpString<&Bump> = BumpString::from_str_in(&s, &bump);
+            a.extend_zeroed(z);
+            for _ in 0..z { want.push('\0'); }
+            if a.as_str() != want { bad("BumpString::extend_zeroed", a.as_str(), &want); }
+            let (fixed, alloc) = a.into_parts();
+            if fixed.as_str() != want || fixed.capacity() < fixed.len() { bad("BumpString::into_parts", fixed.as_str(), &want); }
+            let mut a = BumpString::from_parts(fixed, alloc);
+            if which == 6 { a.push_str(&t) } else { a.try_push_str(&t).unwrap() }
+            want.push_str(&t);
+            a.as_mut_str().make_ascii_uppercase();
+            want.make_ascii_uppercase();
+            unsafe { a.as_mut_vec().extend_from_slice_copy(b"xy") };
+            want.push_str("xy");
+            if a.as_str() != want { bad("BumpString after from_parts / as_mut_str / as_mut_vec", a.as_str(), &want); }
+            let f = a.into_fixed_string();
+            if f.as_str() != want || f.capacity() < f.len() { bad("BumpString::into_fixed_string", f.as_str(), &want); }
+            let mut a2 = f.into_string(&bump);
+            a2.push_str(&t);
+            a2.push_str(&s);
+            want.push_str(&t);
+            want.push_str(&s);
+            if a2.as_str() != want { bad("FixedBumpString::into_string then growth", a2.as_str(), &want); }
+            let bytes = a2.into_bytes();
+            if bytes.as_slice() != want.as_bytes() { bad("BumpString::into_bytes", &String::from_utf8_lossy(bytes.as_slice()), &want); }
+            let a3 = unsafe { BumpString::from_utf8_unchecked(bytes) };
+            let bx = a3.into_boxed_str();
+            if &*bx != want.as_str() { bad("BumpString::into_boxed_str", &bx, &want); }
+            let mut f2 = FixedBumpString::from_init(bx);
+            if f2.as_str() != want || f2.capacity() != want.len() { bad("FixedBumpString::from_init", f2.as_str(), &want); }
+            // a full fixed string: extend_zeroed must fail and leave it alone
+            if f2.try_extend_zeroed(1).is_ok() { bad("try_extend_zeroed on a full fixed string reported success", f2.as_str(), &want); }
+            if f2.try_extend_zeroed(0).is_err() { bad("try_extend_zeroed(0) on a full fixed string failed", f2.as_str(), &want); }
+            if f2.as_str() != want { bad("a failed try_extend_zeroed changed the contents", f2.as_str(), &want); }
+            let popped = f2.pop();
+            let wpopped = want.pop();
+            if popped != wpopped { bad("pop after from_init", &format!("{popped:?}"), &format!("{wpopped:?}")); }
+            let st: &mut str = f2.into_str();
+            if st != want.as_str() { bad("FixedBumpString::into_str", st, &want); }
+            // from_uninit: an empty string with that capacity
+            let cap = want.len() + z;
+            let mut f3 = FixedBumpString::from_uninit(bump.alloc_uninit_slice::<u8>(cap));
+            if f3.len() != 0 || f3.capacity() != cap { bad("FixedBumpString::from_uninit", &format!("len {} cap {}", f3.len(), f3.capacity()), &format!("len 0 cap {cap}")); }
+            f3.push_str(&want);
+            f3.extend_zeroed(z);
+            let mut w3 = want.clone();
+            for _ in 0..z { w3.push('\0'); }
+            if f3.as_str() != w3 { bad("FixedBumpString::extend_zeroed", f3.as_str(), &w3); }
+            if f3.try_push('a').is_ok() { bad("try_push on a full fixed string reported success", f3.as_str(), &w3); }
+            let b3 = f3.into_boxed_str();
+            if &*b3 != w3.as_str() { bad("FixedBumpString::into_boxed_str", &b3, &w3); }
+            let raw = b3.into_boxed_bytes();
+            if &*raw != w3.as_bytes() { bad("BumpBox<str>::into_boxed_bytes", &String::from_utf8_lossy(&raw), &w3); }
+            // MutBumpString
+            let mut b2: Bump = Bump::new();
+            let keep = b2.alloc_str(guard_text).into_ref() as *const str;
+            let mut m = MutBumpString::from_str_in(&s, &mut b2);
+            let mut wm = s.clone();
+            m.extend_zeroed(z);
+            for _ in 0..z { wm.push('\0'); }
+            m.push_str(&t);
+            wm.push_str(&t);
+            m.as_mut_str().make_ascii_lowercase();
+            wm.make_ascii_lowercase();
+            unsafe { m.as_mut_vec().extend_from_slice_copy(b"q") };
+            wm.push('q');
+            if m.as_str() != wm { bad("MutBumpString extend_zeroed / as_mut_str / as_mut_vec", m.as_str(), &wm); }
+            let mb = m.into_bytes();
+            let m2 = unsafe { MutBumpString::from_utf8_unchecked(mb) };
+            if which == 6 {
+                let bx = m2.into_boxed_str();
+                if &*bx != wm.as_str() { bad("MutBumpString::into_boxed_str", &bx, &wm); }
+                if unsafe { &*keep } != guard_text { bad("an earlier allocation changed during MutBumpString conversions", unsafe { &*keep }, guard_text); }
+            } else {
+                let st = m2.into_str();
+                if st != wm.as_str() { bad("MutBumpString::into_str", st, &wm); }
+                if unsafe { &*keep } != guard_text { bad("an earlier allocation changed during MutBumpString conversions", unsafe { &*keep }, guard_text); }
+            }
+            if &*sentinel != guard_text { bad("an earlier allocation changed during the conversions", &sentinel, guard_text); }
+            writeln!(w, "S fm convert;in={};out={}", list(s.as_bytes()), list(want.as_bytes())).unwrap();
         }
         _ => {
             // formatting: the same Display/Debug output as std
@@ -440,7 +547,7 @@ fn main() {
     let kinds = ["bb", "fs", "bs", "ms"];
     for case in 0..cases {
         if case % 4 == 3 {
-            let which = r.below(6);
+            let which = r.below(8);
             conv_case(&mut w, &mut r, which);
             continue;
         }
